@@ -64,7 +64,8 @@ REQUIRED = dict(
              'bin:targets-overlap-each-other', 'bin:spans-native-gap',
              'ndim:1', 'ndim:2', 'error:yes', 'error:no', 'native-order:shuffled', 'target-order:shuffled',
              'call:2d-with-error', 'route:bin_model', 'route:forward-model', 'same-binner:narrower-widths',
-             'same-binner:derived-widths', 'same-binner:other-grid-same-length', 'same-binner:first-again'])
+             'same-binner:derived-widths', 'same-binner:other-grid-same-length', 'same-binner:first-again',
+             'same-binner:other-spacing-same-ends-new-binner'])
 EPS = float(np.finfo(float).eps)
 RTOL = 1e-12
 
@@ -668,7 +669,22 @@ def wl_flux(ctx, rng):
     #     earlier call (a cache keyed on the centres, on the length, ...) show as overlap-mean failures
     steps = []
     for _ in range(int(rng.integers(1, 4))):
-        kind = ['narrower-widths', 'derived-widths', 'other-grid-same-length', 'first-again'][rng.integers(0, 4)]
+        kind = ['narrower-widths', 'derived-widths', 'other-grid-same-length', 'first-again',
+                'other-spacing-same-ends-new-binner'][rng.integers(0, 5)]
+        if kind == 'other-spacing-same-ends-new-binner':
+            # ANOTHER binner object, a native grid with the same number of points and the same end points but the
+            # other spacing (linear <-> geometric), widths derived: nothing remembered from the first grid -- by this
+            # or by any other binner object -- may be used
+            if n < 3 or c[0] <= 0:
+                continue
+            c2 = np.geomspace(c[0], c[-1], n) if nk in ('linear', 'scalar-width', 'edges', 'edges-gaps') else np.linspace(c[0], c[-1], n)
+            c2[0], c2[-1] = c[0], c[-1]
+            guarded(B.bindown, c, f, grid_width=None, error=e) if nk in ('linear', 'log', 'constR') else None
+            B3 = FluxBinner(wngrid=tc[q0], wngrid_width=(tw[q0] if arr_tw else tw))
+            guarded(B3.bindown, c2, f, grid_width=None, error=e)
+            guarded(B.bindown, c2, f, grid_width=None, error=e)
+            steps.append(kind)
+            continue
         if kind == 'narrower-widths':
             w2 = nw * rng.uniform(0.3, 1.0, n)          # nested in the original bins: still ordered and disjoint
             guarded(B.bindown, c, f, grid_width=w2, error=e)
